@@ -78,9 +78,23 @@ def case(job):
     trigs = [next((t for t in order if t in present), 'plain')]
     if total != n: problems.append((f'rules with a text colour: {n}, counted: {total}', '+'.join(trigs), st))
     exp_counts = {c: sum(1 for e in expected if e['cat'] == c) for c in ('readable', 'adjusted', 'attention')}
-    if (st['accessible'], st['tuned'], st['failed']) != (exp_counts['readable'], exp_counts['adjusted'], exp_counts['attention']) and total == n:
-        problems.append((f"counts (readable, adjusted, attention) reported {(st['accessible'], st['tuned'], st['failed'])}, independent classification {tuple(exp_counts.values())}", '+'.join(trigs), None))
     cards = H.parse_report(rep) if rep else []
+    # "each rule counted as already readable really meets that target": per selector, the rules the command counted as readable (those neither listed as
+    # needing attention nor reported as adjusted) may not outnumber the rules of that selector whose pair meets the target by the independent oracle.
+    # (The statement does not say a fixable rule MUST be fixed: a rule the command lists as needing attention although the oracle could classify it
+    # otherwise - e.g. a comment inside the colour value - is not a violation and is only noted.)
+    count_note = None
+    if total == n and len(cards) == st['tuned']:
+        listed_sel = [s_ for f_, s_ in st['listed']]
+        for sel in sorted({e['selector'] for e in expected}):
+            mine = [e for e in expected if e['selector'] == sel]
+            tool_read = len(mine) - listed_sel.count(sel) - sum(1 for c in cards if c['selector'] == sel)
+            ok_read = sum(1 for e in mine if e['cat'] == 'readable')
+            if tool_read > ok_read:
+                e0 = next(e for e in mine if e['cat'] != 'readable')
+                problems.append((f"rule(s) {sel!r}: {tool_read} counted as already readable but only {ok_read} meet the target ratio by the oracle", e0['trigger'] if len(mine) == 1 else '+'.join(trigs), e0))
+        if (st['accessible'], st['tuned'], st['failed']) != (exp_counts['readable'], exp_counts['adjusted'], exp_counts['attention']):
+            count_note = f"counts (readable, adjusted, attention) reported {(st['accessible'], st['tuned'], st['failed'])}, independent classification {tuple(exp_counts.values())}"
     if st['tuned'] != len(cards): problems.append((f"{st['tuned']} adjusted reported, {len(cards)} cards in the HTML report", '+'.join(trigs), None))
     if st['tuned'] > 0 and out_css is None:
         problems.append(('rules reported as adjusted but no _cm.css was written', '+'.join(trigs), r['err'][-200:] if r['err'] else None))
@@ -138,7 +152,7 @@ def case(job):
         # property is present as well, every other kind of failure on the sheet is attributed to that construct instead
         other = 'var-shared' if 'var-shared' in present else trigs[0]
         problems = [(k, trigs[0] if kind_of(k) in ('no-output-written', 'counted-not-exactly-once') else other, d) for k, t, d in problems]
-    return {'name': name, 'opts': list(opts), 'n_rules': n, 'cards': ncards, 'problems': [(k, t, json.loads(json.dumps(d, default=str)) if d is not None else None) for k, t, d in problems], 'css': css, 'features': sorted(feats)}
+    return {'name': name, 'opts': list(opts), 'n_rules': n, 'cards': ncards, 'count_note': count_note, 'problems': [(k, t, json.loads(json.dumps(d, default=str)) if d is not None else None) for k, t, d in problems], 'css': css, 'features': sorted(feats)}
 
 
 def kind_of(msg):
@@ -150,6 +164,7 @@ def kind_of(msg):
     if 'the written file sets it' in msg: return 'reported-not-written'
     if 'differs from the Python API' in msg: return 'reported-differs-from-api'
     if 'has ratio' in msg: return 'reported-below-target'
+    if 'counted as already readable but only' in msg: return 'counted-readable-below-target'
     if 'not listed' in msg: return 'attention-not-listed'
     if 'its text colour changed' in msg: return 'attention-rule-changed'
     return re.sub(r'[^a-z ]', '', msg.lower())[:40].strip().replace(' ', '-')
